@@ -281,7 +281,7 @@ def _solve_one(ob, timeout_s):
     # trivial cases decided by constant folding are still sent through the solver as ground formulas,
     # but skip the process of building huge text for literal true/false
     text = ir.to_smt(q)
-    return check_smt(text, timeout_s)
+    return check_smt(text, min(timeout_s, ob.meta.get('timeout_s', timeout_s)))
 
 
 def _worker(conn, obls, idxs, timeout_s):
